@@ -975,8 +975,32 @@ def oracle_C10(t):
                     good, sig = matches(data_of(oj["start"]["rec"]))
                 if not good and "destroy" not in t.script_ops(i):
                     out.append(F(j, "after a completed ID change and restart the new ID does not reach the session (%s %s)" % (oj["res"], oj.get("site", "")), sig))
+    for i, k in unbacked_cookies(t):
+        out.append(F(i, "the response (%s) leaves the client with session cookie %s, an ID the store does not hold: if the process stops now, the ID the client holds reaches nothing after the restart" % (t.obs[i]["res"], k)))
     return out
 
+
+
+def unbacked_cookies(t):
+    """The first dirty step included (a store failure or crash in THIS step; every
+    earlier step clean): a response that was sent (no crash) and leaves the
+    client with a live session cookie must name an ID the store holds - the
+    package sets cookies only after the record under that ID has been saved, so
+    that a stop of the process right after the response (C10: "if the response
+    had been sent the new ID does too"; C18: "a live ID") leaves the client
+    with an ID that still reaches the session."""
+    out = []
+    for i in range(min(t.n, t.first_dirty + 1)):
+        st, o = t.steps[i], t.obs[i]
+        if st["kind"] != "req" or o["res"] in ("crashed", "panic"):
+            continue
+        cks = [c for c in (o.get("cookies") or []) if c["kind"] in ("live", "delete")]
+        if not cks or cks[-1]["kind"] != "live":
+            continue
+        k = kt(cks[-1]["key"])
+        if k not in t.post(i).store:
+            out.append((i, k))
+    return out
 
 # ------------------------------------------------------------------ C11
 
@@ -1150,6 +1174,8 @@ def oracle_C18(t):
                 out.append(F(i, "a deletion cookie was sent although the presented ID is still alive"))
         if any(c["kind"] == "delete" for c in cks) and kind != "key" and not destroyed:
             out.append(F(i, "a deletion cookie was sent to a client that presented no session ID"))
+    for i, k in unbacked_cookies(t):
+        out.append(F(i, "a session cookie was issued for %s, which is not a live ID: the store holds no record under it (response: %s)" % (k, t.obs[i]["res"])))
     return out
 
 
